@@ -347,8 +347,49 @@ def valid(kind, spec, v):
     return True
 
 
+class Int64:
+    """An integer-like number that is registered with numbers.Integral but is not
+    an int (what numpy.int64 is): not a legal value for an int parameter."""
+
+    def __init__(self, v):
+        self.v = int(v)
+
+    def __int__(self):
+        return self.v
+
+    __index__ = __int__
+
+    def __eq__(self, o):
+        return self.v == o
+
+    def __lt__(self, o):
+        return self.v < o
+
+    def __le__(self, o):
+        return self.v <= o
+
+    def __gt__(self, o):
+        return self.v > o
+
+    def __ge__(self, o):
+        return self.v >= o
+
+    def __hash__(self):
+        return hash(self.v)
+
+    def __repr__(self):
+        return "Int64(%d)" % self.v
+
+
+import numbers as _numbers     # noqa: E402
+_numbers.Integral.register(Int64)
+
+
 def choose_value(kind, spec, how, x):
     """(value, expected to be accepted)"""
+    if how == "other" and kind == "int" and x < 0.5:
+        # in bounds, integral, but not an int
+        return Int64(spec["min"] + int(x * 2 * (spec["max"] - spec["min"]))), False
     if how == "valid":
         if kind == "int":
             return spec["min"] + int(x * (spec["max"] - spec["min"] + 1)) % (spec["max"] - spec["min"] + 1), True
